@@ -229,15 +229,14 @@ impl Engine for RecvBufSim {
                         }
                         m.covered[p as usize] = true;
                     }
-                    if len > 0 {
-                        let new_max = m.max_end.max(off + len);
-                        let expect = new_max - m.max_end;
-                        m.max_end = new_max;
-                        if ret != expect {
-                            out.violate("fresh-sum", "recv", format!("recv({off},{len}) returned {ret}, highest offset grew by {expect}"), step);
-                        }
-                    } else if ret != 0 {
-                        out.violate("fresh-sum", "recv-empty", format!("empty fragment at {off} reported {ret} new bytes"), step);
+                    // the highest offset seen includes the position of an empty fragment (RFC 9000 4.1, 19.8: the
+                    // largest offset of a frame is offset + length, also for length 0 — a lone FIN)
+                    let new_max = m.max_end.max(off + len);
+                    let expect = new_max - m.max_end;
+                    m.max_end = new_max;
+                    if ret != expect {
+                        let site = if len > 0 { "recv" } else { "recv-empty" };
+                        out.violate("fresh-sum", site, format!("recv({off},{len}) returned {ret}, highest offset seen grew by {expect}"), step);
                     }
                     if any_old || off < m.nread {
                         overlaps += 1;
